@@ -6,29 +6,52 @@
    Load.parse_load_file is the literal model of load.go (run against gmars on
    every run), Compile.compile_warrior the literal model of the assembler. *)
 From GM Require Import Base Text Token Compile Load Sim Meaning Render LoadPrint AsmSpec C06Proof C10Proof C16Proof C09Proof
-     Parser C09Compile C09Asm.
+     Parser C09Compile C09Asm C09GenGlue.
 Open Scope N_scope.
 
-(* the property at full strength: both readers return the warrior, under every style *)
+(* the property at full strength: both readers return the warrior, under every style.  The load-file reader
+   handles core sizes up to 2^63; the assembler evaluates operands through a 32-bit range check, so its half
+   speaks of core sizes whose fields an operand expression can denote (M <= 2^31), and of configurations the
+   assembler accepts at all (validate) whose maximum length admits the warrior *)
 Definition C09_full_statement : Prop :=
   forall s cfg code start,
-    0 < c_size cfg -> c_size cfg <= 2 ^ 63 ->
+    0 < c_size cfg ->
     Forall (fun i => i_a i < c_size cfg /\ i_b i < c_size cfg) code ->
     (c_mode cfg = 0 -> Forall (fun i => legal88 i = true) code) ->
     (0 <= start < Z.of_nat (length code))%Z -> (start < 2 ^ 31)%Z ->
     let t := loadprint s (c_mode cfg =? 0) (c_size cfg) code start in
-    parse_load_file cfg t = LOk code start /\
-    exists meta, compile_warrior cfg t = COk code start meta.
+    (c_size cfg <= 2 ^ 63 -> parse_load_file cfg t = LOk code start) /\
+    (validate cfg = true -> c_size cfg <= 2 ^ 31 -> N.of_nat (length code) <= c_len cfg ->
+     exists meta, compile_warrior cfg t = COk code start meta).
 
-(* proved: (1) the load-file reader half, for every style, core size up to 2^63, both dialects, every
-   instruction form, every entry point; (2) the assembler half for the canonical layout itself
-   (LoadPrint.canon_print: one fully explicit instruction per line, single blanks, LF line ends, ORG first
-   or END last, fields unsigned or signed) - an end-to-end theorem through lexer, symbol scanner, parser and
-   compiler, for every warrior, both dialects, every core size whose fields an operand expression can
-   denote (M <= 2^31).  Missing: the assembler half under every layout style of loadprint (letter case,
-   tabs, CR-LF, comment / blank / metadata lines, missing final newline), decided on every run by the
-   correspondence (kinds 10 / 32 of the harness: gmars' CompileWarrior and ParseLoadFile on the rendered
-   text against the warrior); the lexer part of it is C03_spacing_independent_partial. *)
+(* proved in two halves: (1) the load-file reader, C09Proof.loader_round_trip; (2) the assembler,
+   C09GenGlue.asm_loadprint - an end-to-end theorem through the models of lexer (the text as blank runs and
+   lexemes, closed by white space or by a last number / comment running into the end of the input), symbol
+   scanner, parser (documents of instruction lines, the ORG / END line, blank lines, comment lines, trailing
+   remarks, a last line with or without its line end) and compiler (mnemonics in any letter case, fields signed
+   or unsigned) - for every layout record satisfying C09GenGlue.layout_ok, of which the layouts loadprint
+   derives from its style number are instances (lay_of_ok, LoadPrint.loadprint_as_gen). *)
+Theorem C09_round_trip : C09_full_statement.
+Proof.
+  intros s cfg code start Hm Hw Hl Hs H31 t. split.
+  - intros Hm'. apply loader_round_trip; assumption.
+  - intros Hv Hm' Hlen. apply asm_loadprint; try assumption.
+    split; [exact Hw|]. intros E. apply Hl. apply N.eqb_eq. exact E.
+Qed.
+Print Assumptions C09_round_trip.
+
+(* the assembler half holds for every layout record, not only those loadprint can choose *)
+Theorem C09_assembler_any_layout :
+  forall L cfg code start,
+    layout_ok L -> validate cfg = true -> c_size cfg <= 2147483648 ->
+    Forall (fun i => i_a i < c_size cfg /\ i_b i < c_size cfg) code ->
+    ((c_mode cfg =? 0) = true -> Forall (fun i => legal88 i = true) code) ->
+    (0 <= start < Z.of_nat (length code))%Z -> N.of_nat (length code) <= c_len cfg ->
+    exists meta, compile_warrior cfg (loadprint_gen L (c_mode cfg =? 0) (c_size cfg) code start) = COk code start meta.
+Proof. intros L cfg code start HL Hv Hm Hw Hl Hs Hn. apply asm_loadprint_gen; try assumption. split; assumption. Qed.
+Print Assumptions C09_assembler_any_layout.
+
+(* the reader half on its own, under its earlier name *)
 Theorem C09_round_trip_partial :
   forall s cfg code start,
     0 < c_size cfg -> c_size cfg <= 2 ^ 63 ->
